@@ -1819,6 +1819,80 @@ def run_stand_in_scalar(ctx):
                          {"check": "stand-in", "type": ty_str(t), "value": json.dumps(j), "inline": list(lit), "variable": list(var)})
 
 
+def run_code_defaults(ctx):
+    """Schemas built with the PYTHON API whose declared defaults do not conform to their own type (hunt3 C07/1): either the schema is
+    refused (`Schema.validate()`, which every entry point calls first) or whatever reaches a resolver conforms. Classes: None at a
+    non-null position (argument / input field / list item), Int out of range, wrong kind, a value that is not one of the enum's."""
+    from py_gql import graphql_blocking
+    from py_gql.exc import SchemaError
+    from py_gql.schema import Argument, EnumType, Field, InputField, InputObjectType, Int, ListType, NonNullType, ObjectType, Schema, String
+    E = EnumType("CE", [("A", 10), ("B", "bee")])
+    cases = [
+        ("null-at-nonnull", NonNullType(Int), None), ("null-item-at-nonnull", ListType(NonNullType(Int)), [1, None]),
+        ("null-item-at-nonnull", NonNullType(ListType(ListType(NonNullType(String)))), [["a", None]]),
+        ("int-out-of-range", Int, 2 ** 40), ("int-out-of-range", ListType(Int), [1, -(2 ** 31) - 1]),
+        ("wrong-kind", Int, "5"), ("wrong-kind", ListType(Int), 5), ("wrong-kind", Int, True),
+        ("enum-non-member", E, "A"), ("enum-non-member", ListType(E), [10, "zzz"]),
+    ]
+    reg = {"types": [t for t in U.fixed_registry()["types"] if t["kind"] not in ("input", "enum")] +
+           [{"name": "CE", "kind": "enum", "values": [["A", 10], ["B", "bee"]]}]}
+    for cls, ty, default in cases:
+        for where in ("argument", "input-field"):
+            seen = []
+
+            def rec(root, c, info, **kw):
+                seen.append(kw)
+                return "ok"
+            if where == "argument":
+                args = [Argument("x", ty, default_value=default)]
+            else:
+                In = InputObjectType("CIn", [InputField("a", ty, default_value=default), InputField("z", Int)])
+                args = [Argument("x", In)]
+            try:
+                schema = Schema(query_type=ObjectType("Query", [Field("f", String, args=args, resolver=rec)]))
+                schema.validate()
+            except SchemaError:
+                ctx.stat("code-default:%s:refused-by-schema-validation" % cls)
+                ctx.count()
+                continue
+            tyj = World_ty_of(ty)
+            docs = ["{ f }"] if where == "argument" else ["{ f(x: {}) }", "{ f(x: {z: 1}) }"]
+            if where == "argument" and not (isinstance(ty, NonNullType)):
+                docs.append("query($v: %s) { f(x: $v) }" % ty_str(tyj))
+            elif where == "argument":
+                docs.append("query($v: %s) { f(x: $v) }" % ty_str(nullable(tyj)))
+            else:
+                docs.append("query($v: CIn = {}) { f(x: $v) }")
+            for doc in docs:
+                seen[:] = []
+                try:
+                    graphql_blocking(schema, doc, variables={})
+                except Exception as e:  # noqa
+                    ctx.stat("code-default:%s:raised:%s" % (cls, type(e).__name__))
+                    continue
+                ctx.count()
+                for kw in seen:
+                    v = kw.get("x", "<absent>")
+                    if where == "input-field":
+                        v = v.get("a", "<absent>") if isinstance(v, dict) else v
+                    r = "<absent>" if v == "<absent>" and False else (None if v == "<absent>" else U.conforms(reg, tyj, v))
+                    ctx.stat("code-default:%s:%s" % (cls, "conforms" if not r else "nonconforming"))
+                    if r:
+                        ctx.fail("nonconforming-argument:unchecked-code-default:%s" % cls,
+                                 "a declared default of a code-built schema that does not conform to its own type reached the resolver (%s)" % r,
+                                 {"check": "code-default", "class": cls, "where": where, "type": ty_str(tyj), "default": repr(default), "document": doc,
+                                  "kwargs": repr(kw)})
+
+
+def World_ty_of(t):
+    from py_gql.schema import ListType, NonNullType
+    if isinstance(t, ListType):
+        return L(World_ty_of(t.type))
+    if isinstance(t, NonNullType):
+        return NN(World_ty_of(t.type))
+    return N(t.name)
+
+
 def run_extremes(ctx):
     """JSON values at the edge: ±inf, NaN, integers far beyond a double, and containers nested hundreds / thousands deep through a
     RECURSIVE input object — sent through `variables` to every kind of position and to `coerce_value` directly. The statement's
@@ -1964,6 +2038,7 @@ def run(ctx):
     run_extremes(ctx)
     run_cross_kind(ctx)
     run_stand_in_scalar(ctx)
+    run_code_defaults(ctx)
     run_nested_vars(ctx)
     run_collisions(ctx)
     run_pynum(ctx, ctx.n(2000, 15000))
@@ -2017,6 +2092,10 @@ def replay(ctx, data, record=False):
         return True
     if inp.get("check") == "extreme":
         return replay_extreme(inp)
+    if inp.get("check") == "code-default":
+        c2 = type(ctx)(ctx.prop, ctx.tier, ctx.seed)
+        run_code_defaults(c2)
+        return not any(f["signature"] == data.get("signature") for f in c2.found)
     if inp.get("check") == "stand-in":
         c2 = type(ctx)(ctx.prop, ctx.tier, ctx.seed)
         run_stand_in_scalar(c2)
